@@ -37,12 +37,12 @@ def _alarm(signum, frame):
 
 
 def _worker(job):
-    """runs in a pool process: one obligation (hard wall-clock limit = 2 x budget + 120 s -> inconclusive)"""
+    """runs in a pool process: one obligation (hard wall-clock limit = 1.2 x budget + 90 s -> inconclusive)"""
     import signal
     t0 = time.time()
     signal.signal(signal.SIGALRM, _alarm)
     # repeating timer: a single alarm can be swallowed when it fires inside a __del__ or a bare except
-    signal.setitimer(signal.ITIMER_REAL, int(job.get('budget_s', 300) * 2 + 120), 3)
+    signal.setitimer(signal.ITIMER_REAL, int(job.get('budget_s', 300) * 1.2 + 90), 3)
     try:
         return _worker_inner(job, t0)
     except HardTimeout:
